@@ -15,7 +15,7 @@ struct BuildOpts {
     const char* setter_kinds = "SDTO";   // which setter kinds may be applied (S scalar, D derived, T tag, O typed option)
     unsigned max_setters_per_layer = 4;
     size_t max_payload = 256;
-    bool radiotap_setters = false;       // RadioTap field setters corrupt the heap (finding #26, C11): off until repaired
+    bool radiotap_setters = true;        // (was off until finding #26 - RadioTapWriter::update_paddings - was repaired)
 };
 
 struct Built {
